@@ -60,6 +60,11 @@ def c07(ctx):
              "two different elements")
     from . import evalonce
     evalonce.run(ctx, "C07.R7", evalonce.REVIEWED, 3, only=lambda fn: fn.name in ("visit_mutation", "mutation_helper", "visit_rounding"))
+    rep.rule("C07.R8", "no silent wrap-around on the way from a number to a code point / radix / index: in src/exec every integer `as` cast whose "
+             "target type cannot hold every value of the source type (i64 -> u32, usize -> u32, signed -> unsigned ...) is executed only where "
+             "comparisons with constants on the dominating edges confine the value to the target's range; a checked conversion (try_into / "
+             "try_from) is not a cast and is what the code uses today")
+    narrowing_rule(ctx, "C07.R8")
     rep.rule("C07.R4", "CENSUS restricted to the transformation code (Val::{split,join,cast,try_to_integer,round_*}, mutation_helper, "
              "visit_mutation, visit_rounding): no panicking callee precondition is left open (radix range, code point conversion)")
     em = inherent_methods(F, EXEC)
@@ -371,3 +376,41 @@ def integrality_rule(ctx, rule):
         if ok:
             break
     rep.ob(rule, "exact-integrality", ok, why, fn.loc(), how="f == f.trunc()")
+
+
+_INT = {"i8": (True, 8), "i16": (True, 16), "i32": (True, 32), "i64": (True, 64), "i128": (True, 128), "isize": (True, 64),
+        "u8": (False, 8), "u16": (False, 16), "u32": (False, 32), "u64": (False, 64), "u128": (False, 128), "usize": (False, 64)}
+
+
+def _range_of(tyname):
+    sg, bits = _INT[tyname]
+    return (-(1 << (bits - 1)), (1 << (bits - 1)) - 1) if sg else (0, (1 << bits) - 1)
+
+
+def narrowing_rule(ctx, rule):
+    from ..guards import _interval_at
+    rep = ctx.rep
+    n_fns = n_casts = 0
+    for prof, F in sorted(ctx.facts.items()) if hasattr(ctx, "facts") and isinstance(ctx.facts, dict) else [("", ctx.F)]:
+        for fn in F.all_bodies(tests=False):
+            if not fn.file.startswith("src/exec/") or fn.is_derived() or not fn.mir:
+                continue
+            n_fns += 1
+            k = 0
+            for bi, si, st in fn.assigns():
+                if st["rv"].get("cast") != "IntToInt":
+                    continue
+                a, b = F.ty(st["rv"]["from"]).s, F.ty(st["rv"]["to"]).s
+                if a not in _INT or b not in _INT:
+                    continue
+                (alo, ahi), (blo, bhi) = _range_of(a), _range_of(b)
+                if blo <= alo and ahi <= bhi:
+                    continue
+                n_casts += 1
+                lo, hi = _interval_at(fn, bi, st["rv"]["a"])
+                ok = lo is not None and hi is not None and blo <= lo and hi <= bhi
+                rep.ob(rule, "narrowing::%s#%d%s" % (fn.path, k, (" @" + prof) if prof and prof != ctx.primary else ""), ok,
+                       "" if ok else "%s converts %s to %s with `as` (line %s) where nothing confines the value to %s..=%s (known bounds: %s..=%s): out-of-range values wrap around instead of being rejected" % (
+                           fn.path, a, b, st.get("line"), blo, bhi, lo, hi), fn.loc(st.get("line")), how="value within the target range on the dominating edges")
+                k += 1
+    rep.ob(rule, "scanned", n_fns >= 100, "" if n_fns >= 100 else "only %d bodies of src/exec found" % n_fns, None, how="%d bodies (both profiles), %d narrowing integer casts" % (n_fns, n_casts))
